@@ -67,3 +67,31 @@ def describe_path(path, mod=None, limit=6):
     if len(fs) > limit:
         fs = fs[:limit] + [f'+{len(fs) - limit} more']
     return 'path[' + ' & '.join(fs) + ']'
+
+
+
+def path_subst(p, i, e, keep=()):
+    """``e`` with the locals assigned earlier on path ``p`` replaced by the
+    value of their last assignment before position ``i`` (pops from a work
+    list are not substituted: they denote the popped element)."""
+    import ast
+    from .astutil import subst
+    env = {}
+    for n in p.nodes[:i]:
+        a = n.ast
+        if n.kind == 'stmt' and isinstance(a, ast.Assign) and len(
+                a.targets) == 1 and isinstance(a.targets[0], ast.Name) and \
+                a.targets[0].id not in keep and not any(
+                    isinstance(y, ast.Call) for y in ast.walk(a.value)):
+            env[a.targets[0].id] = subst(a.value, env)
+        elif n.kind == 'stmt' and isinstance(a, ast.Assign):
+            for t in a.targets:
+                for y in ast.walk(t):
+                    if isinstance(y, ast.Name):
+                        env.pop(y.id, None)
+        elif n.kind == 'stmt' and isinstance(a, (ast.AugAssign, ast.For)):
+            for y in ast.walk(a.target):
+                if isinstance(y, ast.Name):
+                    env.pop(y.id, None)
+    used = {x.id for x in ast.walk(e) if isinstance(x, ast.Name)} & set(env)
+    return subst(e, {k: env[k] for k in used}) if used else e
